@@ -152,3 +152,22 @@ Proof.
          | |- True => exact I
          end.
 Qed.
+
+(** C01-peer-mac-over-beta-i: [AsEntry::update_macs] as written MACs peer entries over beta_i;
+    the specification (and [initialize_segment_id]) use beta_(i+1).  On the segment 1 -> 2 -> 4
+    with a peer entry at AS 2: all regular hop MACs agree, the peer-entry MAC does not, and
+    the peering path 4 -> 2 ~ 3 -> 5 assembled from code-built segments is refused by the
+    reference router at AS 2 (MAC), while the one from specification beacons is delivered
+    ([sdk_rejects_peering_refuted]). *)
+Definition peer_macs (s : @segment) : list N :=
+  flat_map (fun e => map (fun '(_, _, h) => h_mac h) (se_peers e)) (sg_entries s).
+Lemma update_macs_peer_beta_refuted :
+  has_peer_entries us_124 = true
+  /\ map se_hop (sg_entries (code_beacon hop_mac 4660 1000 us_124)) = map se_hop (sg_entries (beacon hop_mac 4660 1000 us_124))
+  /\ list_eqb N.eqb (peer_macs (code_beacon hop_mac 4660 1000 us_124)) (peer_macs (beacon hop_mac 4660 1000 us_124)) = false
+  /\ match assemble 5 [mkUse (code_beacon hop_mac 4660 1000 us_124) 1 (Some 0%nat) false;
+                       mkUse (code_beacon hop_mac 22136 1000 us_135) 1 (Some 0%nat) true] with
+     | Some pk => (let '(tr, e, _) := ref_sim hop_mac 5 peer_topo 1100 4 0 pk in (tr, e)) = ([(4, 0, 1)], RRejected 2 4)
+     | None => False
+     end.
+Proof. vm_compute. repeat split; reflexivity. Qed.
